@@ -182,50 +182,94 @@ def run(ctx):
     ctx.add_sites(res, ctx.sites(rules=("C-SIG", "K-ARG"), files=files))
     v = ctx.view("metadata_filters.filter_hypergraph")
     f = v.fi.short
-    conds = _selection_conditions(v)
-    phases = {p for p, _, _ in conds}
-    if phases != {"nodes", "edges"}:
-        raise AnalysisError(f"{f}: selection loops for nodes and hyperedges not recognised ({sorted(phases)})")
-    forms = {}
-    for phase, cond, node in conds:
-        for mode, want in (("keep", ("not", ("all", X))), ("remove", ("all", X))):
-            if cond is None:
-                res.unknown("Q-PRED", f, norm(node), f"{phase}:{mode}", "selection condition not recognised", loc(v.fi, node))
-                continue
-            scope = v.enclosing(node, (ast.For,)) if not isinstance(node, ast.ListComp) else node
-            got = _norm_q(Sym(v, mode, scope).ev(cond))
-            forms[(phase, mode)] = got
-            if "?" in repr(got):
-                res.unknown("Q-PRED", f, norm(cond), f"{phase}:{mode}", f"predicate normalises to {got!r}", loc(v.fi, node))
-            else:
-                res.check(got == want, "Q-PRED", f, norm(cond), f"{phase}:{mode}", f"in mode '{mode}' an item is removed iff {_show(got)}; it must be removed iff {_show(want)}", loc(v.fi, node))
-    for mode in ("keep", "remove"):
-        a, b = forms.get(("nodes", mode)), forms.get(("edges", mode))
-        if a is not None and b is not None and "?" not in repr(a) + repr(b):
-            res.check(a == b, "Q-PRED", f, f"nodes vs hyperedges ({mode})", "siblings", "nodes and hyperedges are selected by different predicates", loc(v.fi, v.fi.node))
+    with res.guard("Q-PRED: selection predicate of filter_hypergraph"):
+        conds = _selection_conditions(v)
+        phases = {p for p, _, _ in conds}
+        if phases != {"nodes", "edges"}:
+            raise AnalysisError(f"{f}: selection loops for nodes and hyperedges not recognised ({sorted(phases)})")
+        forms = {}
+        for phase, cond, node in conds:
+            for mode, want in (("keep", ("not", ("all", X))), ("remove", ("all", X))):
+                if cond is None:
+                    res.unknown("Q-PRED", f, norm(node), f"{phase}:{mode}", "selection condition not recognised", loc(v.fi, node))
+                    continue
+                scope = v.enclosing(node, (ast.For,)) if not isinstance(node, ast.ListComp) else node
+                got = _norm_q(Sym(v, mode, scope).ev(cond))
+                forms[(phase, mode)] = got
+                if "?" in repr(got):
+                    res.unknown("Q-PRED", f, norm(cond), f"{phase}:{mode}", f"predicate normalises to {got!r}", loc(v.fi, node))
+                else:
+                    res.check(got == want, "Q-PRED", f, norm(cond), f"{phase}:{mode}", f"in mode '{mode}' an item is removed iff {_show(got)}; it must be removed iff {_show(want)}", loc(v.fi, node))
+        for mode in ("keep", "remove"):
+            a, b = forms.get(("nodes", mode)), forms.get(("edges", mode))
+            if a is not None and b is not None and "?" not in repr(a) + repr(b):
+                res.check(a == b, "Q-PRED", f, f"nodes vs hyperedges ({mode})", "siblings", "nodes and hyperedges are selected by different predicates", loc(v.fi, v.fi.node))
     # mode validation
-    val = [n for n in walk_no_nested(v.fi.node) if isinstance(n, ast.If) and "mode" in norm(n.test) and any(isinstance(b, ast.Raise) for b in n.body)]
-    res.check(bool(val) and all(norm(x.test) in ("mode not in {'keep', 'remove'}", "mode not in ('keep', 'remove')", "mode not in ['keep', 'remove']") for x in val), "Q-PRED", f, norm(val[0].test) if val else "mode not in {'keep','remove'}", "mode-validated", "other mode strings are not rejected (the predicate is only meaningful for keep / remove)", loc(v.fi, v.fi.node))
+    with res.guard("mode validation"):
+        val = [n for n in walk_no_nested(v.fi.node) if isinstance(n, ast.If) and "mode" in {x.id for x in ast.walk(n.test) if isinstance(x, ast.Name)} and any(isinstance(b, ast.Raise) for b in n.body)]
+        def mode_set(t):
+            """constants the test compares `mode` against (module-level constants followed)"""
+            out = set()
+            for x in ast.walk(t):
+                if isinstance(x, ast.Constant) and isinstance(x.value, str):
+                    out.add(x.value)
+                if isinstance(x, ast.Name) and x.id != "mode":
+                    r = ctx.prog.resolve_name(v.fi.module, x.id)
+                    if isinstance(r, ast.AST):
+                        out |= {y.value for y in ast.walk(r) if isinstance(y, ast.Constant) and isinstance(y.value, str)}
+                    else:
+                        for st in v.fi.module.tree.body:
+                            if isinstance(st, ast.Assign) and any(isinstance(t_, ast.Name) and t_.id == x.id for t_ in st.targets):
+                                out |= {y.value for y in ast.walk(st.value) if isinstance(y, ast.Constant) and isinstance(y.value, str)}
+            return out
+        if not val:
+            uses_mode = any(isinstance(x, ast.Name) and x.id == "mode" for x in ast.walk(v.fi.node))
+            res.add("Q-PRED", f, "mode not in {'keep','remove'}", "mode-validated", "violation" if uses_mode and not any(ctx.callees(v.fi, c) for c in walk_no_nested(v.fi.node) if isinstance(c, ast.Call) and any(isinstance(a_, ast.Name) and a_.id == "mode" for a_ in c.args)) else "unknown", "other mode strings are not rejected (the predicate is only meaningful for keep / remove)", loc(v.fi, v.fi.node))
+        for x in val:
+            ms = mode_set(x.test)
+            st_ = "ok" if ms == {"keep", "remove"} else ("violation" if ms and ms != {"keep", "remove"} else "unknown")
+            res.add("Q-PRED", f, norm(x.test), "mode-validated", st_, "" if st_ == "ok" else f"the mode check accepts / rejects {sorted(ms)} instead of exactly keep / remove", loc(v.fi, x))
     # ---- E-2PHASE
     with res.guard("E-2PHASE"):
-        removes = [n for n in walk_no_nested(v.fi.node) if isinstance(n, ast.Call) and isinstance(n.func, ast.Attribute) and n.func.attr in ("remove_node", "remove_edge", "remove_nodes", "remove_edges") and norm(n.func.value) == "hypergraph"]
+        removes = [n for n in walk_no_nested(v.fi.node) if isinstance(n, ast.Call) and isinstance(n.func, ast.Attribute) and n.func.attr in ("remove_node", "remove_edge", "remove_nodes", "remove_edges") and norm(n.func.value) == v.fi.params[0].arg]
         if not removes:
             raise AnalysisError(f"{f}: removal calls not found")
         for r in removes:
             loops = v.enclosing_all(r, (ast.For, ast.While))
-            live = [l for l in loops if isinstance(l, ast.For) and "hypergraph." in norm(l.iter)]
+            hg = v.fi.params[0].arg
+            live, undecided = [], []
+            for l in loops:
+                if not isinstance(l, ast.For):
+                    continue
+                e = v.inline(l.iter)
+                if isinstance(e, ast.Call) and norm(e.func) in ("list", "tuple", "sorted", "set", "frozenset", "dict"):
+                    continue  # a snapshot
+                if isinstance(e, ast.Call) and ctx.callees(v.fi, getattr(e, "_orig", e)) and not (isinstance(e.func, ast.Attribute) and norm(e.func.value) == hg):
+                    # the result of a helper that was handed a view: fresh when the helper returns a new list
+                    fresh = all(any(isinstance(r_, ast.Return) and isinstance(r_.value, (ast.ListComp, ast.List, ast.SetComp, ast.DictComp)) or (isinstance(r_, ast.Return) and isinstance(r_.value, ast.Call) and norm(r_.value.func) in ("list", "sorted", "tuple")) for r_ in ast.walk(c.node)) for c in ctx.callees(v.fi, getattr(e, "_orig", e)))
+                    if not fresh and (hg + ".") in norm(e):
+                        undecided.append(l)
+                    continue
+                if (hg + ".") in norm(e):
+                    live.append(l)
+            if undecided and not live:
+                res.unknown("E-2PHASE", f, norm(r), "not-while-iterating", "the loop iterates the result of a helper that was handed a view of the hypergraph", loc(v.fi, r))
+                continue
             res.check(not live, "E-2PHASE", f, norm(r), "not-while-iterating", f"`{norm(r)}` runs inside `for ... in {norm(live[0].iter) if live else ''}`: the hypergraph is modified while one of its own views is being iterated", loc(v.fi, r))
         rn = [r for r in removes if r.func.attr.startswith("remove_node")]
         re_ = [r for r in removes if r.func.attr.startswith("remove_edge")]
-        res.check(bool(rn) and bool(re_) and max(x.lineno for x in rn) < min(x.lineno for x in re_), "E-2PHASE", f, "remove_node ... remove_edge", "nodes-first", "hyperedges are filtered before nodes (hyperedges shrunk / dropped by node removal would be judged on stale data)", loc(v.fi, v.fi.node))
+        if rn and re_:
+            res.check(max(x.lineno for x in rn) < min(x.lineno for x in re_), "E-2PHASE", f, "remove_node ... remove_edge", "nodes-first", "hyperedges are filtered before nodes (hyperedges shrunk / dropped by node removal would be judged on stale data)", loc(v.fi, v.fi.node))
+        else:
+            res.unknown("E-2PHASE", f, "remove_node ... remove_edge", "nodes-first", "the two removal passes were not both recognised", loc(v.fi, v.fi.node))
         for r in rn:
             kw = {k.arg: k.value for k in r.keywords}
-            ok = ("keep_edges" in kw and norm(kw["keep_edges"]) == "keep_edges") or (len(r.args) >= 2 and norm(r.args[1]) == "keep_edges")
+            ok = ("keep_edges" in kw and norm(v.inline(kw["keep_edges"])) == "keep_edges") or (len(r.args) >= 2 and norm(v.inline(r.args[1])) == "keep_edges")
             res.check(ok, "F-FWD", f, norm(r), "keep_edges", "keep_edges is not forwarded to remove_node: incident hyperedges are always dropped (or always shrunk)", loc(v.fi, r))
     # ---- E-ONLY
     with res.guard("E-ONLY"):
         eff = Effects(ctx)
-        muts = [m for m in eff.mutations(v.fi) if m.root == "hypergraph"]
+        muts = [m for m in eff.mutations(v.fi) if m.root == v.fi.params[0].arg]
         allowed = {id(r) for r in removes}
         for m in muts:
             res.check(id(m.node) in allowed, "E-ONLY", f, m.text(), "mutation", f"the hypergraph is modified other than through remove_node / remove_edge: {m.why}", loc(m.fi, m.node))
@@ -244,22 +288,54 @@ def run(ctx):
         reps = [n for n in ast.walk(outer) if isinstance(n, ast.For) and norm(n.iter) == f"range({wname})"] if outer is not None else []
         res.check(len(reps) == 1, "V-MULT", fb, f"for _ in range({wname})", "multiplicity", "a hyperedge of weight w does not contribute w occurrences", loc(b.fi, outer or b.fi.node))
         for rp in reps:
-            incs = [n for n in rp.body if isinstance(n, ast.AugAssign) and norm(n.target) == "edge_index" and isinstance(n.value, ast.Constant) and n.value.value == 1]
-            res.check(len(incs) == 1, "V-MULT", fb, "edge_index += 1", "one-id-per-occurrence", "occurrences of a weighted hyperedge do not get distinct occurrence ids", loc(b.fi, rp))
             apps = [n for n in ast.walk(rp) if isinstance(n, ast.Call) and isinstance(n.func, ast.Attribute) and n.func.attr == "append"]
-            res.check(bool(apps) and all(b.enclosing(a, (ast.For,)) is not rp and norm(b.enclosing(a, (ast.For,)).iter) == norm(outer.target) for a in apps), "V-MULT", fb, norm(apps[0]) if apps else "bipartite_list.append((node, edge_index))", "all-nodes", "an occurrence does not list every node of the hyperedge", loc(b.fi, rp))
+            used = {x.id for a in apps for x in ast.walk(a) if isinstance(x, ast.Name)}
+            incs = [n for n in rp.body if isinstance(n, ast.AugAssign) and isinstance(n.target, ast.Name)] + [n for n in rp.body if isinstance(n, ast.Assign) and isinstance(n.targets[0], ast.Name) and isinstance(n.value, ast.BinOp) and norm(n.value.left) == norm(n.targets[0])]
+            ids = [n for n in incs if (n.target.id if isinstance(n, ast.AugAssign) else n.targets[0].id) in used]
+            def by_one(n):
+                val, op = (n.value, n.op) if isinstance(n, ast.AugAssign) else (n.value.right, n.value.op)
+                return isinstance(op, ast.Add) and isinstance(val, ast.Constant) and val.value == 1
+            if ids:
+                res.check(len(ids) == 1 and by_one(ids[0]), "V-MULT", fb, norm(ids[0]), "one-id-per-occurrence", "occurrences of a weighted hyperedge do not get distinct occurrence ids", loc(b.fi, rp))
+            else:
+                res.unknown("V-MULT", fb, "edge_index += 1", "one-id-per-occurrence", "the occurrence counter was not recognised", loc(b.fi, rp))
+            if apps:
+                res.check(all(b.enclosing(a, (ast.For,)) is not rp and norm(b.enclosing(a, (ast.For,)).iter) == norm(outer.target) for a in apps), "V-MULT", fb, norm(apps[0]), "all-nodes", "an occurrence does not list every node of the hyperedge", loc(b.fi, rp))
+            else:
+                res.unknown("V-MULT", fb, "bipartite_list.append((node, edge_index))", "all-nodes", "the statement that records an occurrence was not recognised", loc(b.fi, rp))
         s = ctx.view("statistical_filters.get_svh")
         fs = s.fi.short
-        txt = norm(s.fi.node)
-        res.check("orders[(orders >= 2) & (orders <= max_order)]" in txt, "V-MULT", fs, "orders[(orders >= 2) & (orders <= max_order)]", "size-range", "the validated sizes are not exactly 2..max_order", loc(s.fi, s.fi.node))
+        from .. import predtab
+
+        # sizes 2..max_order: a mask `(x >= 2) & (x <= max_order)` (any spelling with the same truth table)
+        masks = [n for n in ast.walk(s.fi.node) if isinstance(n, ast.BinOp) and isinstance(n.op, ast.BitAnd) and all(isinstance(x, ast.Compare) for x in (n.left, n.right)) and "max_order" in {y.id for y in ast.walk(n) if isinstance(y, ast.Name)}]
+        if not masks:
+            res.unknown("V-MULT", fs, "orders[(orders >= 2) & (orders <= max_order)]", "size-range", "the size mask was not recognised", loc(s.fi, s.fi.node))
+        for m in masks:
+            names = sorted({y.id for y in ast.walk(m) if isinstance(y, ast.Name)} - {"max_order"})
+            if len(names) != 1:
+                res.unknown("V-MULT", fs, norm(m), "size-range", "the size mask is not a predicate of one array", loc(s.fi, m))
+                continue
+            test = ast.BoolOp(op=ast.And(), values=[m.left, m.right])
+            lab = predtab.same(test, [names[0], "max_order"], lambda x_, mo: 2 <= x_ <= mo)
+            res.add("V-MULT", fs, norm(m), "size-range", "ok" if lab == "T" else ("unknown" if lab is None else "violation"), "" if lab == "T" else "the validated sizes are not exactly 2..max_order", loc(s.fi, m))
         flags = [n for n in walk_no_nested(s.fi.node) if isinstance(n, ast.Assign) and isinstance(n.targets[0], ast.Subscript) and isinstance(n.targets[0].slice, ast.Constant) and n.targets[0].slice.value == "fdr"]
         if len(flags) != 1:
             raise AnalysisError(f"{fs}: validated flag not recognised")
         c = flags[0].value
-        ok = isinstance(c, ast.Compare) and isinstance(c.ops[0], ast.Lt) and "pvalue" in norm(c.left) and isinstance(c.comparators[0], ast.Name)
-        res.check(ok, "V-MULT", fs, norm(flags[0]), "single-threshold", "the validated flag is not `pvalue < <one scalar threshold per size>`: a hyperedge could be validated while one with a smaller p-value is not", loc(s.fi, flags[0]))
-        pv = [n for n in walk_no_nested(s.fi.node) if isinstance(n, ast.Call) and "_approximated_pvalue" in norm(n)]
-        res.check(bool(pv), "V-MULT", fs, "_approximated_pvalue", "pvalue-source", "p-values are not computed by the binomial survival function", loc(s.fi, s.fi.node))
+        if isinstance(c, ast.Compare) and len(c.ops) == 1 and isinstance(c.ops[0], (ast.Lt, ast.Gt, ast.LtE, ast.GtE)):
+            l, r, op = c.left, c.comparators[0], c.ops[0]
+            if isinstance(op, (ast.Gt, ast.GtE)):
+                l, r = r, l  # orient as  l < r  /  l <= r
+            strict = isinstance(op, (ast.Lt, ast.Gt))
+            pv_left = "pvalue" in norm(l)
+            scalar = isinstance(r, ast.Name)
+            ok = strict and pv_left and scalar
+            res.check(ok, "V-MULT", fs, norm(flags[0]), "single-threshold", "the validated flag is not `pvalue < <one scalar threshold per size>`: a hyperedge could be validated while one with a smaller p-value is not", loc(s.fi, flags[0]))
+        else:
+            res.unknown("V-MULT", fs, norm(flags[0]), "single-threshold", "the validated flag is not a plain comparison", loc(s.fi, flags[0]))
+        pv = [n for n in ast.walk(s.fi.node) if isinstance(n, (ast.Call, ast.Name)) and "_approximated_pvalue" in norm(n)]
+        res.add("V-MULT", fs, "_approximated_pvalue", "pvalue-source", "ok" if pv else "unknown", "" if pv else "the p-value computation was not recognised", loc(s.fi, s.fi.node))
     res.assumptions += ["the binomial survival formula and the step-up threshold value are not decided", "`hypergraph` of filter_hypergraph ranges over all four container classes (tables.POLYMORPHIC)"]
     return res
 
